@@ -15,6 +15,12 @@ import subprocess
 HERE = os.path.dirname(os.path.abspath(__file__))
 ROOT = os.path.abspath(os.path.join(HERE, '..'))
 
+try:
+    import json as _json
+    REFERENCE_SIGNATURES = _json.load(open(os.path.join(HERE, 'signatures.json')))
+except Exception:
+    REFERENCE_SIGNATURES = {}
+
 CPP_LABEL = {'VLabel': 'VLabel', 'NoLabel': 'BaseGraph::NoLabel', 'uint': 'unsigned int', 'real': 'double'}
 ABS_LABEL = {'VLabel': 'VLabel', 'NoLabel': 'NoLabel', 'uint': 'EdgeMultiplicity', 'real': 'bg_real'}
 
@@ -75,6 +81,10 @@ def replay(prop, res, f, repo, index, outbase, gen, sp, max_n=3, timeout=240):
         return replay_free(prop, res, f, repo, index, outbase, gen, sp, target, max_n, timeout)
     info = classify(target)
     tent = index['functions'].get(target)
+    if tent is None or tent.get('status') != 'ok':
+        # the function no longer extracts (its shape changed): its C signature as of the reference extraction
+        # (replay/signatures.json, regenerated with the contracts) still tells the driver how to call the real one
+        tent = REFERENCE_SIGNATURES.get(target)
     if info is None or tent is None or tent.get('status') != 'ok' or target not in sp.contracts:
         return False, '// no native replay driver for %s\n' % target
     cl = f.get('clause')
